@@ -39,7 +39,8 @@ RULE = (
     'separators, run through `in`, [], open_bin, open_str and walk_folder of a constrained RawFileSystem, directly '
     'and through FileSystemChain with a subfolder prefix; each case also carries a history: 0-2 twin filesystems on the '
     'same root (unconstrained, second constrained instance, root spelled differently) receive the same query strings '
-    'before / interleaved with / after the judged queries, their answers are not judged; non-trivial = the case has a query whose target lies '
+    'before / interleaved with / after the judged queries, their answers are not judged; the filesystem objects are '
+    'constructed after the tree exists, before the root folder exists, or before anything exists; non-trivial = the case has a query whose target lies '
     'outside the root under every reading; distinct = sha1 of the descriptor JSON'
 )
 ASSUMPTIONS = [
@@ -52,6 +53,8 @@ ASSUMPTIONS = [
     'the single-slash reading lies inside the root',
     'inside the root => no RootEscapeError is grounded in the RootEscapeError docstring ("a path tries to refer to '
     'a file outside the root"); other OSError subclasses are always acceptable',
+    'RawFileSystem() accepts a root that does not exist yet (no exception on the unchanged tree); the root the caller '
+    'named stays the ground truth when the folder is created afterwards',
     'twin filesystems (constrain_path=False etc.) may legitimately read outside the root; only the constrained '
     'filesystem under test is judged',
     'packlist.unify_path is exercised and classified in the histogram only',
@@ -165,6 +168,7 @@ def case_strategy(chain: bool):
             'twins': st.one_of(st.just([]), st.lists(st.sampled_from(TWIN_KINDS), min_size=1, max_size=2),
                                st.lists(st.sampled_from(TWIN_KINDS), min_size=1, max_size=2)),
             'twin_mode': st.sampled_from(['first', 'interleaved', 'interleaved', 'after']),
+            'construct': st.sampled_from(['after', 'after', 'before_root', 'before_tree']),
         }
         if chain:
             d['prefix'] = st.sampled_from(CHAIN_PREFIXES)
@@ -235,13 +239,15 @@ class Tree:
             f.write(data)
         self.tokens[path] = data
 
-    def populate(self, desc) -> None:
-        self.put(self.scratch + '/top.txt')
-        self.put(self.base + '/base.txt')
-        self.put(self.base + '/' + self.root_name + '2.txt')
+    def populate_root(self, desc) -> None:
         os.makedirs(self.root, exist_ok=True)
         for rel in desc['files']:
             self.put(self.root + '/' + self.expand(rel))
+
+    def populate_outside(self) -> None:
+        self.put(self.scratch + '/top.txt')
+        self.put(self.base + '/base.txt')
+        self.put(self.base + '/' + self.root_name + '2.txt')
         for sib in dict.fromkeys([self.root_name + s for s in SIB_SUFFIXES] + ['other'] + self.case_siblings):
             for rel in SIBLING_FILES:
                 self.put(self.base + '/' + sib + '/' + rel)
@@ -568,30 +574,40 @@ def classify_unify(ctx, tree: Tree, q: str, readings: list[Reading]) -> None:
 
 
 def make_root_arg(tree: Tree, form: str):
-    """The spelling of the root handed to RawFileSystem; relative forms are relative to <base>."""
+    """The spelling of the root handed to RawFileSystem.  Relative forms are relative to the process's current
+    directory, which is never changed (no process-global state)."""
     import pathlib
     root, name = tree.root, tree.root_name
+    rel = os.path.relpath(root, os.getcwd())
+    rel_base = os.path.relpath(tree.base, os.getcwd())
     return {
         'abs': root,
         'abs_slash': root + '/',
         'abs_dot': root + '/.',
         'abs_dotdot': root + '/sub/..',
         'abs_dblslash_mid': tree.base + '//' + name + '//',
-        'rel': name,
-        'rel_slash': name + '/',
-        'rel_dot': './' + name,
-        'rel_up': '../' + os.path.basename(tree.base) + '/' + name,
+        'rel': rel,
+        'rel_slash': rel + '/',
+        'rel_dot': './' + rel,
+        'rel_up': rel_base + '/../' + os.path.basename(tree.base) + '/' + name,
         'pathlib': pathlib.Path(root),
     }[form]
 
 
 def execute_generic(desc, ctx, mode: str) -> None:
     from srctools.filesys import FileSystemChain, RawFileSystem
-    old_cwd = os.getcwd()
     tree = Tree(desc)
     try:
-        tree.populate(desc)
-        os.chdir(tree.base)
+        # order of operations: the filesystem objects may be made before the folders they name exist
+        construct = desc.get('construct', 'after')
+        ctx.label('construct:' + construct)
+        if construct != 'after':
+            ctx.label('construct:before_root_exists')
+        if construct == 'after':
+            tree.populate_outside()
+            tree.populate_root(desc)
+        elif construct == 'before_root':
+            tree.populate_outside()
         fs = RawFileSystem(make_root_arg(tree, desc['root_form']))
         ctx.check(fs.constrain_path is True, 'default_constrained', 'constrain_path is not on by default')
         ctx.check(lexical(fs.path) == tree.root, 'root_path', f'fs.path={fs.path!r}, root given as {desc["root_form"]} '
@@ -615,8 +631,6 @@ def execute_generic(desc, ctx, mode: str) -> None:
             ctx.label('twin_mode:' + twin_mode)
             if twin_kinds[0] == 'unconstrained' and twin_mode in ('first', 'interleaved'):
                 ctx.label('twin:unconstrained_first')
-        if not desc['root_form'].startswith('rel'):
-            os.chdir(old_cwd)
 
         chain = None
         prefix = ''
@@ -638,6 +652,10 @@ def execute_generic(desc, ctx, mode: str) -> None:
             'walk': ('walk_folder',),
             'chain': ('in', 'getitem', 'open_bin', 'open_str', 'walk_folder', 'walk_folder_repeat'),
         }[mode]
+        if construct == 'before_tree':
+            tree.populate_outside()
+        if construct != 'after':
+            tree.populate_root(desc)
         built = [build_query(tree, qd) for qd in desc['queries']]
         if twin_mode == 'first':
             for t in twins:
@@ -674,7 +692,6 @@ def execute_generic(desc, ctx, mode: str) -> None:
                     run_twin(t, q, ops)
         ctx.nontrivial(any_outside)
     finally:
-        os.chdir(old_cwd)
         tree.remove()
 
 
@@ -690,7 +707,8 @@ def execute_chain(desc, ctx):
     execute_generic(desc, ctx, 'chain')
 
 
-_ROUTES = ('escape:case_variant_sibling', 'escape:case_variant_ancestor', 'twin:unconstrained_first', 'twin:none', 'twin:constrained2', 'twin:respelled', 'route:dotdot:sibling_ext', 'route:abs:sibling_ext', 'route:dotdot:ancestor', 'route:dotdot:base_entry',
+_ROUTES = ('construct:before_root_exists', 'construct:before_root', 'construct:before_tree', 'construct:after',
+           'escape:case_variant_sibling', 'escape:case_variant_ancestor', 'twin:unconstrained_first', 'twin:none', 'twin:constrained2', 'twin:respelled', 'route:dotdot:sibling_ext', 'route:abs:sibling_ext', 'route:dotdot:ancestor', 'route:dotdot:base_entry',
            'route:dotdot:sibling_other', 'route:with_backslash', 'target:inside', 'target:outside')
 
 SUBCHECKS = [
